@@ -244,6 +244,9 @@ def features(c, data, text, st):
         st["nonzero_deltas"] += sum(1 for g in groups for d in g["deltas"] if int(d["delta"]["m"]) != 0)
         st["mixed_commodity_and_none"] += sum(1 for g in groups if {bool(x["comm"]) for x in g["rows"]} == {True, False})
         st["multibyte_commodity"] += sum(1 for g in groups if any(any(ord(ch) > 127 for ch in x["comm"]) for x in g["rows"]))
+        for g in groups:      # a block whose account names do not start in one column: a figure exceeded its width
+            cols = {len(l) - len(x["acc"]) for x in g["rows"] for l in lines if l.endswith("  " + x["acc"]) and l.startswith(" " * 9)}
+            st["blocks_with_figure_wider_than_column"] += len(cols) > 1
     st["wide_figures"] += sum(1 for l in lines for tok in l.split() if len(tok) >= 18 and tok.lstrip("-").replace(".", "").isdigit())
     key = "%d,%d" % (c["smin"], c["smax"])
     st["scales"][key] = st["scales"].get(key, 0) + 1
@@ -288,6 +291,9 @@ def check_cases(run, cases, st, distinct=None):
         features(c, c["data"], c["impl_text"], st)
         if distinct is not None and c["impl_text"].count("\n") > 3:
             distinct.add(c["impl_text"])
+            if "sample" not in st and len(c["impl_text"]) < 1500:
+                st["sample"] = {"kind": c["kind"], "scale": "%d,%d" % (c["smin"], c["smax"]), "journal": c["text"],
+                                "listed_accounts": c["sel"] or "all", "text": c["impl_text"], "result": n}
         if not (n & 2):
             st["oracle_failed"] += 1
             c["oracle_failed"] = True
@@ -296,6 +302,8 @@ def check_cases(run, cases, st, distinct=None):
             bad.append(c)
     if bad:
         mv, errs = coq_eval(tag + "-model", IMPORTS, [model_term(c, c["data"]) for c in bad[:5]])
+        if errs:
+            raise Infra("coq evaluation of the model text failed: " + errs[0])
         for c, v in zip(bad[:5], mv):
             mt = parse_str(v)
             i = c["first_diff"]
@@ -318,7 +326,7 @@ def check_cases(run, cases, st, distinct=None):
 def new_stats():
     return {"stages": {}, "op_failed": 0, "oracle_failed": 0, "neg_zero_skipped": 0, "compared": 0, "different": 0, "characters": 0, "lines": 0, "rows": 0,
             "long_accounts": 0, "wide_figures": 0, "empty_reports": 0, "nonzero_deltas": 0, "mixed_commodity_and_none": 0,
-            "multibyte_commodity": 0, "glued_account_amount": 0, "headers_with_metadata": 0, "entries_dropped_empty": 0, "scales": {}}
+            "multibyte_commodity": 0, "blocks_with_figure_wider_than_column": 0, "glued_account_amount": 0, "headers_with_metadata": 0, "entries_dropped_empty": 0, "scales": {}}
 
 
 def corpus_cases(kind):
@@ -348,6 +356,6 @@ def run_text_stage(run, kind, n=None):
     check_cases(run, cases, st, distinct)
     st["distinct_texts"] = len(distinct)
     st = {k: v for k, v in st.items() if not (k in ("glued_account_amount", "headers_with_metadata", "entries_dropped_empty") and kind != "register")
-          and not (k in ("empty_reports", "nonzero_deltas", "mixed_commodity_and_none", "multibyte_commodity") and kind == "register")}
+          and not (k in ("empty_reports", "nonzero_deltas", "mixed_commodity_and_none", "multibyte_commodity", "blocks_with_figure_wider_than_column") and kind == "register")}
     run.notes["text_" + kind] = st
     return st
